@@ -37,6 +37,8 @@ type CnrCount struct {
 	// Recounted from the object indexes:
 	Phy, Root, TS, Lock, Link uint64
 	Marks                     uint64 // garbage keys
+	MarksNonPhys              uint64 // garbage keys of addresses that are not indexed as physical
+	MarksRedundant            uint64 // garbage keys with the "redundant" value
 	LiveNumber, LiveSize      uint64 // physical objects without any garbage mark, and their payload
 	Indexed                   int
 }
@@ -74,6 +76,9 @@ func (d *Dump) Recount(c int) CnrCount {
 		case len(k) == 33 && k[0] == pfxGarbage:
 			marked[string(k[1:])] = true
 			r.Marks++
+			if len(kv.V) > 0 {
+				r.MarksRedundant++
+			}
 		case len(k) > 34 && k[0] == pfxIDAttr:
 			id := string(k[1:33])
 			rest := k[33:]
@@ -106,6 +111,11 @@ func (d *Dump) Recount(c int) CnrCount {
 		}
 	}
 	r.Indexed = len(objs)
+	for id := range marked {
+		if o := objs[id]; o == nil || !o.phy {
+			r.MarksNonPhys++
+		}
+	}
 	for id, o := range objs {
 		if o.phy {
 			r.Phy++
@@ -127,4 +137,32 @@ func (d *Dump) Recount(c int) CnrCount {
 		}
 	}
 	return r
+}
+
+// ObjectFacts tells how an address is stored ("physical", "header-only", "unstored") and marked
+// ("", "marked", "marked-redundant") according to the raw dump.
+func (d *Dump) ObjectFacts(c int, id [32]byte) (stored, mark string) {
+	stored = "unstored"
+	kvs, ok := d.Cnr(c)
+	if !ok {
+		return
+	}
+	phyKey := append(append([]byte{pfxIDAttr}, id[:]...), []byte(object.FilterPhysical+"\x001")...)
+	for _, kv := range kvs {
+		k := kv.K
+		switch {
+		case len(k) == 33 && k[0] == pfxID && string(k[1:]) == string(id[:]):
+			if stored == "unstored" {
+				stored = "header-only"
+			}
+		case len(k) == 33 && k[0] == pfxGarbage && string(k[1:]) == string(id[:]):
+			mark = "marked"
+			if len(kv.V) > 0 {
+				mark = "marked-redundant"
+			}
+		case string(k) == string(phyKey):
+			stored = "physical"
+		}
+	}
+	return
 }
